@@ -66,3 +66,108 @@ def compare_c06(vec: Dict[str, Any], obs: Dict[str, Any]) -> Outcome:
                                  % (vec["comp"].capitalize(), vec["opts"]["lazy"], obs["kind"], vec["expect"]["kind"]))
     oc.sig = _sig(vec, obs)
     return oc
+
+
+# ---------------------------------------------------------------------------------------------------------------
+# MultiIndex.tla: the MultiIndex component, stand-alone and as the index of a DataFrameSchema (C01/C03, C04, C06, C10)
+
+MULTIINDEX = Slice(name="MultiIndex", module="MultiIndex",
+                   cfg={"quick": "mc/MC_MultiIndex_quick.cfg", "thorough": "mc/MC_MultiIndex_thorough.cfg"},
+                   observe=("vf.obs_multiindex", "observe_multiindex"), cap={"quick": 8000, "thorough": 120000})
+
+
+def _same_levels(exp: List[Dict[str, Any]], got: List[Dict[str, Any]]) -> List[str]:
+    out: List[str] = []
+    if [l["name"] for l in exp] != [l["name"] for l in got]:
+        return ["level names are %s, specification %s" % ([l["name"] for l in got], [l["name"] for l in exp])]
+    for e, g in zip(exp, got):
+        if e["pd"] != g["pd"] or [norm(c) for c in e["cells"]] != [norm(c) for c in g["cells"]]:
+            out.append("level %s is %s %s, specification %s %s" % (e["name"], g["pd"], g["cells"], e["pd"], e["cells"]))
+    return out
+
+
+def _mi_sig(vec: Dict[str, Any], obs: Dict[str, Any]) -> str:
+    s = vec["schema"]
+    return "multiindex|%s|%s|%s|%s|%s|%s|%s" % (
+        [(l["dtype"], l["coerce"], len(l["checks"])) for l in s["lv"]], (s["coerce"], s["strict"], s["ordered"], s["unique"]),
+        [l["name"] for l in vec["levels"]], [l["pd"] for l in vec["levels"]], sorted(vec["opts"].items()), obs["kind"],
+        obs["in_schema"]["kind"])
+
+
+def _mi_runs(obs: Dict[str, Any]):
+    return (("MultiIndex.validate(df)", obs), ("DataFrameSchema(index=MultiIndex).validate(df)", obs["in_schema"]))
+
+
+def compare_mi_c03(vec: Dict[str, Any], obs: Dict[str, Any]) -> Outcome:
+    """verdict = the declared meaning on the coerced index; what is returned is the coerced index"""
+    oc = Outcome()
+    exp = vec["expect"]
+    for who, o in _mi_runs(obs):
+        if o["kind"].startswith("Leak"):
+            continue                                   # C06
+        if (o["kind"] == "ok") != (exp["kind"] == "ok"):
+            oc.mismatches.append("%s: %s %s, specification %s" % (who, o["kind"], o.get("reasons", ""), exp["kind"]))
+        elif o["kind"] == "ok":
+            d = _same_levels(exp["returned"], o["returned"])
+            if d:
+                oc.mismatches.append("%s returned an index that differs from the coerced index: %s" % (who, "; ".join(d[:2])))
+            if not o.get("x_ok", True):
+                oc.mismatches.append("%s changed the data columns" % who)
+    oc.sig = _mi_sig(vec, obs)
+    return oc
+
+
+def compare_mi_c04(vec: Dict[str, Any], obs: Dict[str, Any]) -> Outcome:
+    oc = Outcome()
+    for who, o in _mi_runs(obs):
+        if not vec["opts"]["inplace"] and not o["input_unchanged"]:
+            oc.mismatches.append("%s with inplace=False modified the caller's frame (outcome %s): index before %s, after %s"
+                                 % (who, o["kind"], o["caller_before"], o["caller_after"]))
+        if o["kind"] == "ok" and not o.get("type_ok", True):
+            oc.mismatches.append("%s did not return a DataFrame" % who)
+    oc.sig = _mi_sig(vec, obs)
+    return oc
+
+
+def compare_mi_c06(vec: Dict[str, Any], obs: Dict[str, Any]) -> Outcome:
+    oc = Outcome()
+    exp = vec["expect"]["kind"]
+    for who, o in _mi_runs(obs):
+        if o["kind"].startswith("Leak"):
+            oc.mismatches.append("%s: an internal exception escaped: %s %s" % (who, o["kind"], o.get("msg", "")[:100]))
+        elif o["kind"] != "ok" and exp != "ok" and o["kind"] != exp:
+            oc.mismatches.append("%s with lazy=%s raised %s, documented %s" % (who, vec["opts"]["lazy"], o["kind"], exp))
+        if o["kind"] != "ok" and not vec["opts"]["inplace"] and not o["input_unchanged"]:
+            oc.mismatches.append("%s failed (%s) and left the caller's frame modified" % (who, o["kind"]))
+    oc.sig = _mi_sig(vec, obs)
+    return oc
+
+
+def compare_mi_c10(vec: Dict[str, Any], obs: Dict[str, Any]) -> Outcome:
+    """coercion of the levels: names, lengths and values of what comes back are the specification's coerced index"""
+    oc = Outcome()
+    exp = vec["expect"]
+    s = vec["schema"]
+    if not (s["coerce"] or any(l["coerce"] for l in s["lv"])):
+        return oc
+    for who, o in _mi_runs(obs):
+        if o["kind"] == "ok" and exp["kind"] == "ok":
+            d = _same_levels(exp["returned"], o["returned"])
+            if d:
+                oc.mismatches.append("%s: the coerced index differs from the specification's: %s" % (who, "; ".join(d[:2])))
+    oc.sig = _mi_sig(vec, obs)
+    return oc
+
+
+def compare_mi_c01(vec: Dict[str, Any], obs: Dict[str, Any]) -> Outcome:
+    """verdict only: accepted exactly when the declared meaning holds of the (coerced) index"""
+    oc = Outcome()
+    exp = vec["expect"]
+    for who, o in _mi_runs(obs):
+        if o["kind"].startswith("Leak"):
+            continue
+        if (o["kind"] == "ok") != (exp["kind"] == "ok"):
+            oc.mismatches.append("verdict of %s: specification says %s, pandera %s %s"
+                                 % (who, "accept" if exp["kind"] == "ok" else "reject", o["kind"], o.get("reasons", "")))
+    oc.sig = _mi_sig(vec, obs)
+    return oc
